@@ -19,7 +19,7 @@ ASSUMPTIONS = ["aliasing the user creates by handing one mutable object to two u
 
 
 def bounds(tier):
-    leaves = ["list-int", "list-int-cd", "dict-typed", "dict-typed-cd", "list-str-req", "list-any-dflt", "dict-any-dflt", "dict-any-empty-dflt", "dict-typed-empty-dflt", "list-any-empty-dflt", "list-int-empty-dflt", "int09", "challenge-dflt", "any", "str-norm"]
+    leaves = ["list-int", "list-int-cd", "dict-typed", "dict-typed-cd", "list-str-req", "list-any-dflt", "dict-any-dflt", "dict-any-empty-dflt", "dict-typed-empty-dflt", "list-any-empty-dflt", "list-int-empty-dflt", "int09", "challenge-dflt", "any", "str-norm", "dict-of-lists", "list-of-lists"]
     if tier == "thorough":
         leaves = list(W.catalogue())
     return {"shapes": ["flat", "nested", "cfglist", "reuse", "dynamic"], "leaves": leaves, "depth": 3 if tier == "thorough" else 2}
@@ -40,6 +40,17 @@ def extra_ops(spec, leaf):
         for p, f in W.leaf_paths(spec):
             if f == lspec and "[" not in p:
                 ops.append(["from-sibling", p])
+    nested = (lspec["k"] == "Dict" and (lspec.get("val") or {}).get("k") == "List") or (lspec["k"] == "List" and (lspec.get("item") or {}).get("k") == "List")
+    if nested:
+        # merge B0's container into A's through every merging mutator, then mutate one level further down
+        for p, f in W.leaf_paths(spec):
+            if f == lspec and "[" not in p:
+                theirs = {"$": "sibling-value", "path": p}
+                if lspec["k"] == "Dict":
+                    ops += [["mut", p, "update", theirs], ["mut", p, "ior", theirs], ["mutin", p, "d", "append", 7], ["mutin", p, "d", "setitem", 0, 8]]
+                else:
+                    ops += [["mut", p, "extend", theirs], ["mut", p, "iadd", theirs], ["mut", p, "setslice", [0, 0, None], theirs],
+                            ["mutin", p, 0, "append", 7], ["mutin", p, -1, "setitem", 0, 8]]
     return ops
 
 
